@@ -38,7 +38,7 @@ using QStr = String<char>;
 struct Case {
     std::vector<uint8_t> bytes;
     int                  vtype{0}; // 0 SizeT, 1 String<char>, 2 Value<char>, 3 HList
-    int                  gen2{0};               // 1: Insert(key, const Value&) may take its value from an entry of the same table (absent in older files: 0)
+    int                  gen2{0};               // 2: as 1, and the full-hash theme has long one-unit-apart keys of one hash; 1: Insert(key, const Value&) may take its value from an entry of the same table (absent in older files: 0)
     bool                 has_marker_key{false}; // a key found by the marker hunt (replay of such a finding)
     std::string          marker_key;
 };
@@ -176,6 +176,28 @@ Program decode(const Case &c) {
             base = kp.low8a;
             base.resize(4);
             p.collisions = p.full_collisions = true;
+            if (c.gen2 >= 2) {
+                // long keys of one hash that differ in a single unit: every round of StringUtils::Hash multiplies by (length ^ offset), even in
+                // every round of an even length, so the outer units of a long key are shifted out of the 32 bits. A stem of 64 / 96 / 128 units
+                // and its one-unit variants at the outer positions (the first, the 8th, the 16th ..., the last ...) whose hash is confirmed equal.
+                const size_t L = (size_t[]){64, 96, 128}[rng.below(3)];
+                std::string  stem;
+                for (size_t i = 0; i < L; ++i) {
+                    stem.push_back("abcdefgh01"[rng.below(10)]);
+                }
+                base.push_back(stem);
+                static const size_t at[] = {0, 7, 15, 23, 8, 1, 6, 16, 3, 31};
+                for (size_t k = 0; k < 10 && base.size() < 10; ++k) {
+                    for (int side = 0; side < 2; ++side) {
+                        std::string v = stem;
+                        const size_t q = side == 0 ? at[k] : L - 1 - at[k];
+                        v[q]           = char(v[q] ^ 0x10);
+                        if (qhash(v) == qhash(stem) && rng.below(3) != 0) {
+                            base.push_back(v);
+                        }
+                    }
+                }
+            }
             break;
         case 5:
             base = kp.nul;
@@ -1171,7 +1193,7 @@ struct H {
     static rc::Gen<Case> gen() {
         using namespace rc;
         return gen::map(gen::tuple(gen::resize(420, gen::container<std::vector<uint8_t>>(gen::arbitrary<uint8_t>())), pbt::pick<int>({0, 0, 1, 1, 2, 2, 3}),
-                                   pbt::pick<int>({0, 1, 1})),
+                                   pbt::pick<int>({0, 1, 2, 2})),
                         [](std::tuple<std::vector<uint8_t>, int, int> t) {
                             Case c;
                             c.bytes = std::get<0>(t);
@@ -1291,7 +1313,7 @@ struct H {
         pbt::FuzzBytes f(d, n);
         const uint8_t sel = f.sel();
         c.vtype = sel & 3;
-        c.gen2  = (sel >> 2) & 1;
+        c.gen2  = ((sel >> 2) & 1) + ((sel >> 2) & (sel >> 3) & 1);
         c.bytes = f.rest();
         return true;
     }
